@@ -37,7 +37,7 @@ RULE = ("fault space = every executed statement (LINE event) of NP2Converter.* a
 ASSUMPTIONS = ["crash = Python-level interruption at a statement boundary, or os._exit of the process; loss of unsynced page cache is not modelled",
                "stale but valid files of an earlier run (e.g. an old lf.cbin beside a fresh lf.bin) are not a violation: the property asks for a complete, valid set",
                "after the original has been deleted by a verified run the history ends (there is no input left to hand to the converter)"]
-REQUIRED = {"reused_converter_runs": 12, "crash_points_fired": 40, "distinct_crash_sites": 30, "history_steps": 60, "remove_original_judged": 3, "idempotence_checked": 8,
+REQUIRED = {"reused_converter_runs": 12, "torn_header_histories": 2, "crash_points_fired": 40, "distinct_crash_sites": 30, "history_steps": 60, "remove_original_judged": 3, "idempotence_checked": 8,
             "completeness_checked": 20, "recoverability_checked": 100, "corruptions_injected": 12, "originals_with_inconsistent_metadata": 5, "compression_faults_injected": 12, "long_rebuilds": 1}
 CASE_TIMEOUT = 60.0
 MAX_PROCS = 14
@@ -711,6 +711,34 @@ def run_case(case):
                 res.check(recoverable(w, rec), "recoverable:lost-after-forced-rerun", f"{label}: after the forced re-run the recording is not recoverable")
             if k > first_window_end:
                 nt += 1
+        if case["slice"] == 0 and kind.startswith("NP2.4"):
+            # an interruption INSIDE a file write (power cut while a per-shank header is being written): the header holds its first lines only -
+            # among them the size field - next to a complete binary. A forced re-run ends with a complete, valid set whatever it finds (round 19)
+            for which in ("ap", "lf"):
+                w = d / "w"
+                shutil.rmtree(w, ignore_errors=True)
+                shutil.copytree(base, w)
+                label = f"{kind} opts={case['opts']} {'cbin' if case['cbin'] else 'bin'} run interrupted while a shank's {which} header was being written"
+                o1 = dict(opts, delete_original=False)
+                r1 = step(res, w, rec, o1, False, label + " (first run)")
+                metas = sorted(w.glob(f"probe00*/*.{which}.meta"))
+                if r1["status"] != 1 or len(metas) < 2:
+                    continue
+                mf = metas[min(1, len(metas) - 1)]
+                lines = mf.read_text().splitlines(keepends=True)
+                cut = next((j for j, ln in enumerate(lines) if ln.lstrip("~").startswith("fileSizeBytes")), 5) + 1
+                cut = min(max(cut, 6), len(lines) - 3)
+                mf.write_text("".join(lines[:cut]))
+                for later in metas[metas.index(mf) + 1:]:
+                    later.unlink()                                  # written after the torn one: not there yet
+                res.count("torn_header_histories")
+                r3 = step(res, w, rec, o1, True, label + " -> forced re-run")
+                if r3["exc"]:
+                    res.violation("forced-rerun:exception:torn-header", f"{label}: forced re-run raised {r3['exc']}", traceback=r3.get("tb", ""))
+                else:
+                    res.check(r3["status"] == 1, "forced-rerun:status", f"{label}: forced re-run returned {r3['status']}")
+                    complete(res, w, rec, label + " -> forced re-run", o1)
+                res.check(recoverable(w, rec), "recoverable:lost-after-forced-rerun", f"{label}: after the forced re-run the recording is not recoverable")
         res.count("distinct_crash_sites", len(seen_sites))
         res.count("trace_events", len(trace) if case["slice"] == 0 else 0)
         res.sig = f"crash-{kind}-{case['opts']}-{case['slice']}"
